@@ -629,7 +629,7 @@ class Rewriter:
             cre = re.compile(rx)
             while True:
                 m = mask(code)
-                mm = cre.search(m, pos)
+                mm = cre.search(code if '%' in rx else m, pos)
                 if not mm:
                     break
                 dot = mm.start()
@@ -836,6 +836,14 @@ class Rewriter:
                         arg = args[ai]; ai += 1
                     elif re.match(r'^[A-Za-z_][A-Za-z0-9_]*$', inner):
                         arg = inner
+                    elif inner == ':02':
+                        if ai >= len(args):
+                            ok = False; break
+                        arg = args[ai]; ai += 1
+                        pieces.append(('lit', cur)); cur = ''
+                        pieces.append(('pad2', arg))
+                        k = e + 1
+                        continue
                     else:
                         ok = False; break
                     pieces.append(('lit', cur)); cur = ''
@@ -851,8 +859,10 @@ class Rewriter:
                 if kind == 'lit':
                     if v != '':
                         parts.append('"%s"' % v)
+                elif kind == 'pad2':
+                    parts.append('&(%s).vx_pad2()' % v)
                 else:
-                    parts.append('(%s).vx_str()' % v)
+                    parts.append('&(%s).vx_string()' % v)
             if not parts:
                 parts = ['""']
             if len(parts) > 8:
@@ -1043,6 +1053,8 @@ METHOD_RULES_PRE = [
     (r'\.\s*all\s*\(', 'vx::vec_all', 'strip_iter', 'vec.iter().all->vx::vec_all'),
 ]
 METHOD_RULES = [
+    (r'\.\s*format\s*\(\s*"%y%m%d"\s*\)', 'vx_fmt_yymmdd()', 'rename_whole', 'chrono NaiveDate.format("%y%m%d")->vx_fmt_yymmdd'),
+    (r'\.\s*format\s*\(\s*"%H%M"\s*\)', 'vx_fmt_hhmm()', 'rename_whole', 'chrono NaiveTime.format("%H%M")->vx_fmt_hhmm'),
     (r'\(\s*&\s*([A-Za-z_][A-Za-z0-9_.]*)\s+as\s+&\s*dyn\s+Any\s*\)\s*\.\s*downcast_ref\s*::\s*<\s*(?:[A-Za-z_0-9]+\s*::\s*)*([A-Za-z_0-9]+)\s*>\s*\(\s*\)', r'crate::anyx::downcast_\2(&\1)', 'replace_whole', '(&x as &dyn Any).downcast_ref::<T>()->anyx::downcast_T(&x)'),
     (r'\.\s*parse\s*::\s*<\s*(u32|i32|u8|u16|usize|f64)\s*>\s*\(', r'vx_parse_\1', 'rename', 'str.parse::<T>->vx_parse_T'),
     (r'\.\s*trim_start_matches\s*\(\s*\|\s*c\s*:\s*char\s*\|\s*c\s*\.\s*is_whitespace\s*\(\s*\)\s*\)', 'vx_trim_start()', 'rename_whole', 'str.trim_start_matches(is_whitespace)->vx_trim_start'),
